@@ -11,12 +11,6 @@ open ZygoVerif.Hash
 section
 variable {K V : Type} (o : KeyOps K) (sh : Show K V)
 
-/-- the bucket loop of the old HashDelete: `hash.Map[hashval] = append(arr[0:i], arr[i+1:]...); break` -/
-def bremoveOrSame (b : Bucket K V) (k : K) : Bucket K V :=
-  match bremove o b k with
-  | some b' => b'
-  | none => b
-
 /-- HashDelete before the fix: `NumKeys--` as soon as the bucket exists, the bucket entry is
 kept in the map even when it becomes empty, KeyOrder is never touched. -/
 def del (h : Hash K V) (k : K) : Hash K V :=
